@@ -64,9 +64,9 @@ def transcription(D, batches, beta, gamma, bsz, max_iter):
   return steps
 
 
-def gen_case(rng, supervised):
+def gen_case(rng, supervised, lda_tail=False):
   d = int(rng.integers(2, 4))
-  ncls = int(rng.integers(2, 4))
+  ncls = 3 if lda_tail else int(rng.integers(2, 4))
   sep = float(rng.choice([1.0, 3.0, 3.0]))        # well-separated classes activate bases; overlapping ones keep w = 0
   X, y = gen.dataset(rng, d=d, n_classes=ncls, per_class=int(rng.integers(5, 8)), bits=4, sep=sep)
   seed = int(rng.integers(1000))
@@ -75,8 +75,9 @@ def gen_case(rng, supervised):
   bsz = int(rng.integers(1, 5))
   beta = float(rng.choice([1e-5, 1e-3, 1e-2]))
   gamma = float(rng.choice([5e-3, 5e-2, 0.5]))
-  bkind = str(rng.choice(['triplet_diffs', 'array'] + (['lda'] if supervised else [])))
-  nbasis = int(rng.choice([6, 10, 16]))
+  bkind = 'lda' if lda_tail else str(rng.choice(['triplet_diffs', 'array'] + (['lda'] if supervised else [])))
+  # (odd values: with two LDA directions per region the last region then contributes only part of its directions)
+  nbasis = int(rng.choice([7, 9, 13])) if lda_tail else int(rng.choice([6, 7, 9, 10, 13, 16]))
   kw = dict(beta=beta, gamma=gamma, max_iter=max_iter, output_iter=output_iter, batch_size=bsz, random_state=seed)
   if bkind == 'array':
     Bm = rng.normal(size=(nbasis, d))
@@ -104,8 +105,6 @@ def gen_case(rng, supervised):
         batches = np.random.RandomState(seed).randint(low=0, high=D.shape[0], size=(max_iter, bsz))
         ev.update(basis=dym(pr.basis), w_reported=dyv(pr.w), D=dym(D), batches=[[int(v) + 1 for v in b] for b in batches],
                   steps=transcription(D, batches, beta, gamma, bsz, max_iter), probes_ok=True)
-        if bkind == 'lda':
-          ev['n_basis'] = int(pr.basis.shape[0])
     except Exception as e:
       ev['exc'] = type(e).__name__
       ev['exc_msg'] = str(e)[:160]
@@ -114,7 +113,7 @@ def gen_case(rng, supervised):
 
 def gen_trace(recipe):
   rng = np.random.default_rng(recipe['seed'])
-  return {'est': 'SCML', 'events': [gen_case(rng, recipe['supervised']) for _ in range(recipe['n'])]}
+  return {'est': 'SCML', 'events': [gen_case(rng, recipe['supervised'], bool(recipe.get('lda_tail'))) for _ in range(recipe['n'])]}
 
 
 def signature_of(recipe, tr, clause, pos):
@@ -128,6 +127,9 @@ def run(ctx):
   rs = []
   for i in range(8 if ctx.quick else 48):
     rs.append(dict(supervised=bool(i % 2), n=3 if ctx.quick else 8, seed=int(rng.integers(1 << 30))))
+  # directed: local-LDA bases whose last region contributes only part of its directions (3 classes, odd n_basis)
+  for i in range(2 if ctx.quick else 8):
+    rs.append(dict(supervised=True, lda_tail=True, n=3 if ctx.quick else 8, seed=int(rng.integers(1 << 30))))
   ctx.rule = ('random triplet sets (n_triplets >= n_features) x basis in {triplet_diffs, lda (supervised), array} x n_basis x '
               'beta x gamma x batch_size 1..4 x max_iter in {12,24,40} x output_iter in {1,4,6,12} x integer seeds; SCML and '
               'SCML_Supervised; distinct by event content; non-trivial = at least one active basis (w_i > 0) in the result')
